@@ -15,7 +15,7 @@ RULE = ("Mini.tla computes, on bit patterns, the value of every code of p3binary
         "by nine creation routes under saturate->overflow->saturate; half-precision inputs (quick: every 97th pattern plus +-2 "
         "around every binade and special value; thorough: all 65536) x every format x both modes. (C) random float64 inputs: "
         "midpoints between neighbouring codes +-1 ulp, around 65504/65520 and every format maximum, subnormals, +-inf, NaN, -0.0; "
-        "power-of-two scaled dtypes (float, mini formats, mxint, uint/int). The implementation's look-up tables were generated "
+        "power-of-two scaled dtypes (float, mini formats, mxint, uint/int). Arrays of these formats: 0.0 and -0.0 in one Array in either order, the same out-of-range value appended before and after mxfp_overflow changes, Arrays over scaled dtypes next to unscaled ones. The implementation's look-up tables were generated "
         "independently (gfloat); the spec recomputes every entry from first principles.")
 
 
@@ -39,5 +39,8 @@ def run(chk):
     chk.queue([miniprogs.random_mini_program(rng) for _ in range(8000 if thorough else 1500)], 'random-mini')
     chk.queue([miniprogs.scaled_program(rng) for _ in range(3000 if thorough else 600)], 'random-scaled')
     chk.queue([codecprogs.equal_but_distinct_program(rng) for _ in range(800 if thorough else 200)], 'random-signed-zeros')
+    from harness import arrayprogs
+    chk.queue([arrayprogs.array_memo_program(rng) for _ in range(1500 if thorough else 300)], 'array-equal-values-and-modes')
+    chk.queue([arrayprogs.scaled_array_program(rng) for _ in range(1500 if thorough else 300)], 'array-scaled')
     chk.flush()
     return chk.finish(rule=RULE, assumptions=ASSUME + ['non-power-of-two scales and NaN payloads are outside the model'])
